@@ -256,6 +256,9 @@ func VsObserve(x interface{}) {
 	res.Trace = append(res.Trace, s)
 }
 
+// VsClassSet replaces the input class (per-step classification in histories).
+func VsClassSet(text string) { res.Class = text }
+
 func VsClass(text string) {
 	for _, have := range strings.Split(res.Class, ",") {
 		if have == text {
